@@ -4,6 +4,7 @@
 
 mod adapters;
 mod obs;
+mod obs_async;
 mod threads;
 mod util;
 mod vec;
@@ -29,6 +30,10 @@ fn main() {
             obs::replay(&args[2], &args[3], nv);
         }
         "adapters-replay" => adapters::replay(&args[2], &args[3]),
+        "obs-async-replay" => {
+            let nv = arg_after(&args, "--nv").map(|s| s.parse().unwrap()).unwrap_or(3);
+            obs_async::replay(&args[2], &args[3], nv);
+        }
         "threads" => {
             let rep = arg_after(&args, "--repeat").map(|s| s.parse().unwrap()).unwrap_or(1);
             threads::replay(&args[2], &args[3], rep);
